@@ -55,6 +55,9 @@ type flags struct {
 	Keep bool `json:"keep"`
 	Lazy bool `json:"lazy"`
 	Ver  bool `json:"ver"`
+	// Root is the name of the directory the command is run on ("d": a plain name; "_x", "vendor", ".x": a name the
+	// skip rule knows)
+	Root string `json:"root"`
 }
 
 type tcase struct {
@@ -68,6 +71,18 @@ type tcase struct {
 	Final2  []file `json:"final2"`
 	Status2 string `json:"status2"`
 	Errors2 int    `json:"errors2"`
+	// Alts: what Generate.tla predicts when deviations of the pinned code are switched on (each alone and all together),
+	// with the names of the deviations this configuration then exercises. A failing case whose real outcome is exactly
+	// one of those predictions is attributed to these deviations (signature = their names).
+	Alts []alt `json:"alts"`
+}
+
+type alt struct {
+	Why     []string `json:"why"`
+	Final1  []file   `json:"final1"`
+	Status1 string   `json:"status1"`
+	Final2  []file   `json:"final2"`
+	Status2 string   `json:"status2"`
 }
 
 var logger = slog.New(slog.NewTextHandler(io.Discard, nil))
@@ -504,6 +519,9 @@ func main() {
 		srng := rand.New(rand.NewSource(seed))
 		for r := 1; r <= reps; r++ {
 			for _, c := range cases {
+				if len(c.Alts) > 0 {
+					continue // the recorded runs are validated against the rules the property demands
+				}
 				hooked = append(hooked, job{c: c, w: workers[1+srng.Intn(2)], rep: r, hooked: true})
 			}
 		}
@@ -545,7 +563,11 @@ func main() {
 				defer wg.Done()
 				for j := range jobCh {
 					c := j.c
-					root := filepath.Join(work, fmt.Sprintf("case%05d-w%d-r%d-%d", c.ID, j.w, j.rep, j.n), "root")
+					rootName := c.Flags.Root
+					if rootName == "" {
+						rootName = "d"
+					}
+					root := filepath.Join(work, fmt.Sprintf("case%05d-w%d-r%d-%d", c.ID, j.w, j.rep, j.n), rootName)
 					if err := os.MkdirAll(root, 0o755); err != nil {
 						vhlib.Fatal("%v", err)
 					}
@@ -647,6 +669,25 @@ func main() {
 						}
 						// after the second run the specification's tree has the same files with the same contents
 						fl = append(fl, compare(c, run, want, initial, got, soloOf)...)
+						if len(fl) > 0 {
+							// is the real outcome exactly what the specification predicts for deviations of the pinned code?
+							for _, a := range c.Alts {
+								cw, cs := a.Final1, a.Status1
+								if run == 2 {
+									cw, cs = a.Final2, a.Status2
+								}
+								if gotStatus == cs && len(compare(c, run, cw, initial, got, soloOf)) == 0 {
+									first := fl[0]
+									first.Info["property_clause"] = first.Sig
+									first.Info["root"] = c.Flags.Root
+									fl = nil
+									for _, why := range a.Why {
+										fl = append(fl, failure{why, first.What + " (the outcome is the one Generate.tla predicts for this deviation of the code)", first.Info})
+									}
+									break
+								}
+							}
+						}
 						if run == 1 {
 							after1 = got
 						} else if len(fl) == 0 {
